@@ -152,6 +152,8 @@ def c10_walk_conformance():
     head = json.loads(lines[0]) if lines and lines[0].startswith("{") else {"cases": 0, "failures": -1}
     viol = []
     fails = [l.split("\t") for l in lines[1:] if l.startswith("FAIL\t")]
+    if head["failures"] < 0 or head["cases"] == 0:
+        return [], {"kind": "bounded conformance test of an assumed contract", "skipped": "the stand-in produced no report (crashed?): " + (p.stderr or "")[-300:]}
     if head["failures"] != 0:
         ex = fails[0] if fails else ["", "?", "?", "?"]
         viol.append({"obligation": "replace_tilde_or_at_in_expr.assumed-contract[walk]", "fn": "replace_tilde_or_at_in_expr", "props": ["C10"],
@@ -218,6 +220,9 @@ def structural(suite, prop):
     head = json.loads(lines[0]) if lines and lines[0].startswith("{") else {"cases": 0, "failures": -1}
     fails = [l.split("\t") for l in lines[1:] if l.startswith("FAIL\t")]
     viol = []
+    if head["failures"] < 0 or head["cases"] == 0:
+        # a crash of the oracle (or an empty corpus) decides nothing: undecided, never a violation
+        return [], {"kind": "bounded structural stand-in", "skipped": "the stand-in produced no report (crashed?): " + (p.stderr or "")[-300:]}
     if head["failures"] != 0:
         ex = fails[0] if fails else ["", "?", "?"]
         viol.append({"obligation": "structural[%s]" % suite, "fn": None, "props": [prop],
@@ -258,6 +263,8 @@ def metamorphic(suite, prop):
         lines += ls
     fails = [l.split("\t") for l in lines if l.startswith("FAIL\t")]
     viol = []
+    if head["failures"] < 0 or head["cases"] == 0:
+        return [], {"kind": "bounded metamorphic stand-in", "skipped": "the stand-in produced no report (crashed?)"}
     if head["failures"] != 0:
         ex = fails[0] if fails else ["", "?", "?", "?"]
         viol.append({"obligation": "metamorphic[%s]" % suite, "fn": None, "props": [prop],
@@ -284,6 +291,8 @@ def model_conformance():
     lines = p.stdout.strip().split("\n")
     head = json.loads(lines[0]) if lines and lines[0].startswith("{") else {"cases": 0, "failures": -1}
     bad = None
+    if head["failures"] < 0 or head["cases"] == 0:
+        return {"kind": "conformance test of the trusted token model", "skipped": "no report (crashed?)"}, None
     if head["failures"] != 0:
         bad = "the token model of prelude/tokens.rs disagrees with the real quote runtime: " + "; ".join(lines[1:4])
     return {"kind": "conformance test of the trusted token model against the real quote runtime (testing)", "cases": head["cases"], "failures": head["failures"]}, bad
